@@ -264,7 +264,8 @@ EvFn(node, st0, ctx) ==
                         ELSE R(VFloat(NumOf(A(1)) % NumOf(A(2))), D, st)
     [] nm = "int"    -> R(IF A(1).t = "none" THEN None ELSE VInt(NumOf(A(1))), D, st)
     [] nm = "firstscan" -> R(VBool(st.scanCount = 1), st.scanCount = 1, st)
-    [] nm = "firstline" -> R(VBool(ctx.k = 0), ctx.k = 0, st)
+    \* firstline(): the most recent record with data is record 0 (so it also holds on a blank final record right after it)
+    [] nm = "firstline" -> R(VBool(ctx.lastDataK = 0), ctx.lastDataK = 0, st)
     [] nm = "concat" -> R(VStr(Strip(Concat(rs))), D, st)
     [] nm = "length" -> LET n == IF Truthy(A(1)) THEN Len(StrOf(A(1))) ELSE 0 IN R(VInt(n), n > 0, st)
     [] nm = "lower"  -> R(VStr(Strip(Lower(StrOf(A(1))))), D, st)
